@@ -201,7 +201,9 @@ func c13R2(h H) {
 			}
 			ok := false
 			if errV != nil {
-				ne := nilEdges(do, false, func(x ssa.Value) bool { return x == errV || derives(x, func(y ssa.Value) bool { return y == errV }, flowOpts{}) })
+				ne := nilEdges(do, false, func(x ssa.Value) bool {
+					return x == errV || derives(x, func(y ssa.Value) bool { return y == errV }, flowOpts{})
+				})
 				for e := range ne {
 					s := e.From.Succs[e.Idx]
 					if rt, isR := lastInstr(s).(*ssa.Return); isR {
@@ -254,7 +256,7 @@ func c13R4(h H) {
 			{{true, 2}, {false, 2}},
 			{{true, 1}, {true, 2}, {false, 3}},
 			{{false, 0}},
-			{{true, 2}},              // then the stream ends with an error
+			{{true, 2}},             // then the stream ends with an error
 			{{true, 1}, {false, 1}}, // small reads
 		}
 		plens := []int{1, 2, 4}
@@ -608,7 +610,6 @@ func isZero(v ssa.Value) bool {
 	c, ok := constInt(v)
 	return ok && c == 0
 }
-
 
 // c13PostTable: the body reader reaches the request writer unwrapped.  ServeHTTP passes 0 as the length when the
 // client did not declare one (chunked bodies): anything that limits the reader to the announced length sends such a
